@@ -263,7 +263,7 @@ func H_C06_render() {
 // H_C06_generate: $GENERATE start-stop/step expands to one record per step with $, ${offset}, ${offset,width,base},
 // $$ and \$ replaced as documented.
 func H_C06_generate() {
-	ranges := [][3]int{{1, 3, 1}, {0, 0, 1}, {2, 9, 3}, {10, 12, 2}, {5, 5, 7}, {0, 300, 100}}
+	ranges := [][3]int{{1, 3, 1}, {0, 0, 1}, {2, 9, 3}, {10, 12, 2}, {5, 5, 7}, {0, 300, 100}, {1, 10, 3}, {3, 9, 2}, {1, 9, 4}, {7, 20, 6}}
 	r := ranges[vChoice("range", len(ranges))]
 	start, stop, step := r[0], r[1], r[2]
 	rng := vItoa(start) + "-" + vItoa(stop)
